@@ -167,9 +167,8 @@ def _get_aliases(result_types: dict, package_name: str) -> dict[str, set[str]]:
                     ):
                         fullname = key.node.target.type.fullname
                     elif isinstance(type_value, mypy_types.CallableType):
-                        bound_args = type_value.bound_args
-                        if bound_args and hasattr(bound_args[0], "type"):
-                            fullname = bound_args[0].type.fullname  # type: ignore[union-attr]
+                        if type_value.is_type_obj():
+                            fullname = type_value.type_object().fullname
                     elif hasattr(key, "node") and isinstance(key.node, mypy_nodes.Var):
                         fullname = key.node.fullname
 
@@ -186,8 +185,8 @@ def _get_aliases(result_types: dict, package_name: str) -> dict[str, set[str]]:
                     continue
 
             if in_package:
-                if isinstance(type_value, mypy_types.CallableType) and hasattr(type_value.bound_args[0], "type"):
-                    fullname = type_value.bound_args[0].type.fullname  # type: ignore[union-attr]
+                if isinstance(type_value, mypy_types.CallableType) and type_value.is_type_obj():
+                    fullname = type_value.type_object().fullname
                 elif isinstance(type_value, mypy_types.Instance):
                     fullname = type_value.type.fullname
                 elif isinstance(key, mypy_nodes.TypeVarExpr):
